@@ -30,7 +30,7 @@ ANCHORS = [
 ]
 REQUIRED = ["calls:plugin", "calls:unplug", "calls:post_update", "walks", "placed_on_free_station", "enqueued", "admitted_from_queue",
             "departed_while_waiting", "early_departures", "late_unplug_of_early_leaver", "runs_completed", "replays_compared", "xproc_runs_compared", "energy_ledgers_checked",
-            "early_option_given_as:np", "early_option_given_as:int", "early_option_given_as:attr", "regime:early-on", "regime:early-off", "regime:more-sessions-than-stations", "regime:simultaneous-departure-connected-and-waiting",
+            "arrivals_delivered_in_the_legacy_two_argument_form", "early_option_given_as:np", "early_option_given_as:int", "early_option_given_as:attr", "regime:early-on", "regime:early-off", "regime:more-sessions-than-stations", "regime:simultaneous-departure-connected-and-waiting",
             "distinct_station_choices"]
 BUDGET_S = {"quick": 240, "thorough": 3000}
 
@@ -67,7 +67,8 @@ def gen_history(rng):
         sd = {"kind": "scripted", "mr": 1, "seed": rng.randrange(1 << 30), "t0": 0, "mode": "full"}
     return {"period": rng.choice([1, 5, 15]), "network": {"stations": stations, "constraints": cons, "tol": None},
             "sessions": sessions, "recompute": [], "scheduler": sd, "np_seed": 0, "early": rng.random() < 0.55,
-            "early_as": rng.choice(["bool", "bool", "np", "int", "attr"]), "verbose": rng.random() < 0.3}
+            "early_as": rng.choice(["bool", "bool", "np", "int", "attr"]), "verbose": rng.random() < 0.3,
+            "legacy_plugin": rng.random() < 0.12}
 
 
 def cases(seed, tier):
@@ -136,6 +137,18 @@ def monitored_run(d, rseed, obs, judge=True):
     if obs is not None:
         obs.ev("early_option_given_as:" + how)
     net = sim.network
+    if d.get("legacy_plugin"):
+        # arrivals are delivered in the legacy two-argument form network.plugin(ev, station_id) (the argument is documented as
+        # deprecated and ignored: the space is still chosen by the network); the nominal station is whatever the EV carries
+        _orig_plugin = net.plugin
+
+        def _legacy(ev, station_id=None):
+            return _orig_plugin(ev, ev.station_id if ev.station_id in stations_ else stations_[0])
+
+        stations_ = list(net.station_ids)
+        net.plugin = _legacy
+        if obs is not None:
+            obs.ev("arrivals_delivered_in_the_legacy_two_argument_form")
     stations = list(net.station_ids)
     sh = Shadow(stations)
     log = []  # placement log: (iteration, op, session, station)
